@@ -96,6 +96,53 @@ def p_pow(a, n):
     return r
 
 
+def _lead(a):
+    """leading monomial under the graded-lex-like order given by tuple comparison of (degree, monomial)."""
+    return max(a, key=lambda m: (sum(e for _, e in m), m))
+
+
+def _mdiv(m1, m2):
+    d = dict(m1)
+    for a, e in m2:
+        if d.get(a, 0) < e:
+            return None
+        d[a] -= e
+        if d[a] == 0:
+            del d[a]
+    return tuple(sorted(d.items()))
+
+
+def p_divide(a, b, limit=400):
+    """exact quotient a / b of multivariate polynomials, or None if b does not divide a."""
+    if not b:
+        return None
+    if not a:
+        return {}
+    q = {}
+    r = dict(a)
+    lb = _lead(b)
+    cb = b[lb]
+    steps = 0
+    while r:
+        steps += 1
+        if steps > limit:
+            return None
+        lr = _lead(r)
+        m = _mdiv(lr, lb)
+        if m is None:
+            return None
+        c = r[lr] / cb
+        q[m] = q.get(m, 0) + c
+        for mb, vb in b.items():
+            mm = _mmul(m, mb)
+            v = r.get(mm, 0) - c * vb
+            if v == 0:
+                r.pop(mm, None)
+            else:
+                r[mm] = v
+    return q
+
+
 def p_key(a):
     return tuple(sorted(a.items()))
 
@@ -169,6 +216,27 @@ class Rat:
         if n < 0:
             return self.inv().pow(-n)
         return Rat(p_pow(self.num, n), {k: (f, e * n) for k, (f, e) in self.den.items()})
+
+    def cancel(self):
+        """divide out denominator factors that divide the numerator exactly."""
+        r = self
+        changed = True
+        while changed and r.den and r.num:
+            changed = False
+            for k, (f, e) in list(r.den.items()):
+                if p_is_const(f):
+                    continue
+                q = p_divide(r.num, f)
+                if q is not None:
+                    den = dict(r.den)
+                    if e == 1:
+                        del den[k]
+                    else:
+                        den[k] = (f, e - 1)
+                    r = Rat(q, den)
+                    changed = True
+                    break
+        return r
 
     def _cancel_trivial(self):
         if not self.num:
